@@ -212,7 +212,7 @@ def classify_args(a, b):
 def args_probe_miri(out):
     """ErasedArgsSlice (from_raw_parts, zeroed ZST closure, slice_ptr_index) under Miri and natively."""
     bins = build.build("release", ["puredrv"])
-    qs = ["R i64", "R strslice", "R string", "R zst", "R empty"]
+    qs = ["R i64", "R strslice", "R string", "R zst", "R empty", "R chars", "R revstr", "R display"]
     ans = purecheck.ask(bins["puredrv"], qs)
     for q, a in zip(qs, ans):
         if "match=1" not in a:
